@@ -86,6 +86,42 @@ CLAIMS = {
         note=COMMON_NOTE + 'Command-sequence level (programs reach it through the VM model of C01); the simulated network never hangs; logging of abandoned requests is observed by the harness only.',
         technique='Coq proof over fault plans (induction over command lists and attempt streams); shape/decorator tie by translator; exhaustive fault enumeration runs',
         design='DESIGN.md 7 C12'),
+    'C06': dict(
+        text=('Token-level model of the whole recursive-descent parser (Front/Parser.v: every statement form, the precedence-climbing expression '
+              'parser, the symbol-table context) on top of the lexer model (Front/Lexer.v); its result type has exactly three outcomes -- accepted '
+              'with a syntax tree, rejected with the line of the offending token, or fuel exhausted -- and the fuel 4*tokens+16 is checked per run. '
+              'Theorems (Front/ParserProofs.v): break outside a loop, assignment to / redefinition of a macro, an undefined name in any value position, '
+              'a routine defined inside a routine, a missing end, unbalanced braces / brackets / parentheses and a malformed time pattern are rejected '
+              'by the model at the token concerned. Per run: Parser.parse never raises and names a line on mutated scripts, token soup and noise; '
+              'model and implementation agree on accept / reject, error line and instruction list; every accepted image passes the verified '
+              'control-flow checker of C05 and runs without an internal fault.'),
+        note=COMMON_NOTE + 'That Python code never raises cannot be a Gallina theorem: it is exhibited by the runs. Forms outside the parser model (numbers beyond 15 digits, `not`, pause, breakpoint ...) are checked against the implementation only and counted.',
+        technique='Coq model of lexer + parser with rejection lemmas; correspondence by vm_compute on generated / mutated / random texts; C05 checker on accepted images',
+        design='DESIGN.md 7 C06'),
+    'C16': dict(
+        text=('Character-level model of the lexer (the regular-expression alternation as ordered choice, tied to lex.py by the translator: every '
+              'regular expression, their order, the register list, the mark list, the keyword rule). Theorems: any white-space character between '
+              'tokens is skipped; a comment runs to the end of its line; H/S/B/K are the four register names; the reserved words are exactly the '
+              'documented keywords plus `not` and `breakpoint` (known finding D36); EVERY other name of the documented form -- any length, including '
+              'case variants of keywords and the names of the internal token classes -- is lexed as a NAME with its own spelling; call brackets '
+              'give identical code; braces round a single literal / variable / macro / register denote the same value. Per run: lexer model vs '
+              'Lex.tokens on scripts, re-layouts, soup and noise; re-layouts (white space, line breaks, comments, abbreviations, tight operators, '
+              'call brackets) must give the identical instruction list, braces round single values the same trace; names in five roles; strings.'),
+        note=COMMON_NOTE + 'The theorem that lexing any rendering of a token list gives that list back (lex_layout) is not proved; layout invariance over whole scripts is decided by the differential runs. Braces round a single value change MOVEQ into PUSHQ/POP on every tree: read as an equivalent program.',
+        technique='Coq model of the lexer with theorems over all names / all white space; translator-tied tables; metamorphic and correspondence runs',
+        design='DESIGN.md 7 C16'),
+    'C17': dict(
+        text=('The translator extracts, for Parser, Context, CodeGen, Machine, Registers, VmIo and VmMath, every attribute the constructor creates and '
+              'whether the method that starts a compile / a run re-initialises it (directly, through clear(), through a helper, or through the '
+              'sub-object whose reset it calls); the model functions compile_on / run_on take the state earlier work left in the object and restore '
+              'exactly the fields the source restores. Theorems: no field is left out; for EVERY left-over state the result of a compile equals that '
+              'of a fresh compiler, and a run equals the run on a fresh machine -- after the same job was stopped after any number of '
+              'instructions, after it finished, after any other job. Per run: histories of 2-9 compile requests (valid, cut off inside loop / routine '
+              '/ matrix block, mutated, soup) on one Parser / ScriptJob; one ScriptJob executed repeatedly with stops at random instructions; '
+              'job after job; instruction list unchanged by execution.'),
+        note=COMMON_NOTE + 'The per-class allow-list of fields that need no reset (tables of bound methods, service objects, fields written before every read) is part of the translator and is trusted; that execution does not alter the program holds in the model by construction (the image is an argument of the step function) and is checked on the implementation per run.',
+        technique='Coq proof over a reset model generated from the source (field table by translator); history-based differential runs',
+        design='DESIGN.md 7 C17'),
     'C20': dict(
         text=('Model of WebApp/FrontEnd over an abstract job controller with URL resolution in blueprint order; theorems for all manifests and '
               'all request/completion histories: only manifest-listed files are ever handed to the controller, under the entry\'s path; an '
